@@ -165,6 +165,8 @@ Proof.
   rewrite orb_true_iff, IH, str_eqb_eq. split; intros [H|H]; auto.
 Qed.
 
+Definition is_nil {A} (l : list A) : bool := match l with [] => true | _ => false end.
+
 (* ASCII upper-casing, as [str::to_uppercase] behaves on ASCII (method names
    are HTTP tokens, hence ASCII). *)
 Definition upper_byte (b : N) : N :=
